@@ -3,6 +3,7 @@ from __future__ import annotations
 import ctypes
 import gc
 import logging
+import re
 import numbers
 import operator
 import os
@@ -254,6 +255,14 @@ def condom(f):
             _exit_z3()
 
     return z3_condom
+
+
+_Z3_STRING_ESCAPE = re.compile(r"\\u\{([0-9a-fA-F]+)\}")
+
+
+def _z3_unescape(s: str) -> str:
+    """Z3 prints characters outside printable ASCII (and a backslash that would start an escape) as \\u{X}."""
+    return _Z3_STRING_ESCAPE.sub(lambda m: chr(int(m.group(1), 16)), s)
 
 
 def _z3_decl_name_str(ctx, decl):
@@ -585,7 +594,7 @@ class BackendZ3(Backend):
         if op_name.startswith("RM_"):
             return RM(op_name)
         if op_name == "INTERNAL":
-            return claripy.StringV(z3.SeqRef(ast, self._context).as_string())
+            return claripy.StringV(_z3_unescape(z3.SeqRef(ast, self._context).as_string()))
         if op_name == "BitVecVal":
             bv_size = z3.Z3_get_bv_sort_size(ctx, z3_sort)
             if z3.Z3_get_numeral_uint64(ctx, ast, self._c_uint64_p):
@@ -742,7 +751,7 @@ class BackendZ3(Backend):
         if op_name == "INTERNAL":
             seq = z3.SeqRef(ast, self._context)
             if seq.is_string():
-                return seq.as_string()
+                return _z3_unescape(seq.as_string())
         raise BackendError("Unable to abstract Z3 object to primitive")
 
     def _abstract_bv_val(self, ctx, ast):
